@@ -93,6 +93,13 @@ PROPS = {
         thorough=[mc('mc_topic', 'all', 'sc', P=3, E=1, budget=900), mc('mc_topic', '0,1,3,4,6,7', 'tso', P=3, D=2, E=1, budget=1500), mc('mc_topic', '2,5', 'tso', P=2, D=1, E=1, budget=900)],
         oracle='every consumer receives exactly the published items in publication-index order (per-publisher order for concurrent publishers), payload complete (checksum + HB race detector on the slot values), blocks instead of returning short before close, end marker after close, no lost wake-up (deadlock detector), same again after clear()',
     ),
+    'C03': dict(
+        title='concurrent hash set/map: linearizable insert-if-absent, one winner per key',
+        quick=[mc('mc_hash', 'all', 'sc', P=2, E=1, budget=200), mc('mc_hash', '0,1,3,4', 'tso', P=1, D=1, E=0, budget=100)],
+        thorough=[mc('mc_hash', 'all', 'sc', P=3, E=1, budget=1500), mc('mc_hash', 'all', 'tso', P=2, D=1, E=0, budget=900)],
+        oracle='per key: exactly one successful insertion, all calls return the same element address, lookups starting after an insertion returned hit (logical stamps), elements fully constructed when visible (value check + HB race detector over the value array), full fixed table rejects without consuming a move-only argument, contents/size/iteration at quiescence',
+        assumptions=['harness hash function places keys in chosen groups with chosen 7-bit tags (collisions, equal tags, group wrapping the table end)'],
+    ),
 }
 
 SEQX_ASSUMPTIONS = [
